@@ -59,3 +59,69 @@ pub fn jitter_with(reg: &dyn Registry, readings: Vec<u64>, rounds: Option<u8>) -
     }
     (g, script)
 }
+
+// ------------------------------------------------------------------------------------------------
+// Deviations from the benign stream (E4)
+// ------------------------------------------------------------------------------------------------
+
+#[derive(Clone, Copy, Debug, PartialEq, Eq, Hash)]
+pub enum Dev {
+    /// repeat the previous reading
+    Repeat,
+    /// repeat the reading three positions back: a zero delta when this is a probe reading
+    /// (probe readings are 3 apart in a collection and in test_timer)
+    Repeat3,
+    /// the 3-reading delta of the window before the previous one (d, x, d)
+    SameDeltaSkip,
+    /// same 3-reading delta as the previous window (second difference 0 at a probe)
+    SameDelta,
+    /// continue the arithmetic progression of 3-reading deltas (third difference 0 at a probe)
+    Arith,
+    BackOne,
+    BackFar,
+    Jump31m1,
+    Jump31,
+    Jump32,
+    Jump32p7,
+    Wrap,
+    /// a zero reading
+    Zero,
+}
+
+pub const DEV_MENU: [Dev; 12] = [Dev::Repeat, Dev::Repeat3, Dev::SameDeltaSkip, Dev::SameDelta, Dev::Arith, Dev::BackOne, Dev::BackFar, Dev::Jump31m1, Dev::Jump31, Dev::Jump32, Dev::Jump32p7, Dev::Wrap];
+
+/// Apply deviations (position, kind), in increasing position order, to the increments of `base`:
+/// the deviating reading is computed from the readings before it, later readings keep the base
+/// increments.
+pub fn deviate(base: &[u64], devs: &[(usize, Dev)]) -> Vec<u64> {
+    let mut t: Vec<u64> = Vec::with_capacity(base.len());
+    for i in 0..base.len() {
+        let inc = if i == 0 { base[0] } else { base[i].wrapping_sub(base[i - 1]) };
+        let mut v = if i == 0 { inc } else { t[i - 1].wrapping_add(inc) };
+        if let Some(&(_, kind)) = devs.iter().find(|(p, _)| *p == i) {
+            let prev = if i > 0 { t[i - 1] } else { 0 };
+            let back = |k: usize| if i >= k { t[i - k] } else { 0 };
+            v = match kind {
+                Dev::Repeat => prev,
+                Dev::Repeat3 => back(3),
+                Dev::SameDeltaSkip => back(3).wrapping_add(back(6).wrapping_sub(back(9))),
+                Dev::SameDelta => back(3).wrapping_add(back(3).wrapping_sub(back(6))),
+                Dev::Arith => {
+                    let d1 = back(3).wrapping_sub(back(6));
+                    let d2 = back(6).wrapping_sub(back(9));
+                    back(3).wrapping_add(d1.wrapping_mul(2).wrapping_sub(d2))
+                }
+                Dev::BackOne => prev.wrapping_sub(1),
+                Dev::BackFar => prev.wrapping_sub(5_000_000_123),
+                Dev::Jump31m1 => prev.wrapping_add((1 << 31) - 1),
+                Dev::Jump31 => prev.wrapping_add(1 << 31),
+                Dev::Jump32 => prev.wrapping_add(1 << 32),
+                Dev::Jump32p7 => prev.wrapping_add((1 << 32) + 7),
+                Dev::Wrap => u64::MAX - 2,
+                Dev::Zero => 0,
+            };
+        }
+        t.push(v);
+    }
+    t
+}
